@@ -623,8 +623,11 @@ def fit_formula(rep, prog, rule):
                 # centering inside [0, 1] the property fixes the value: (dim - crop) * centering
                 wit = None
                 for dv, cv, cc in ((1000.0, 500.0, 0.25), (1000.0, 500.0, 0.75), (900.0, 300.0, 0.1)):
-                    got = _feval(e, {"dim": dv, "crop": cv, "cent": cc, "dims": dims, "cropname": crop, "ci": ci})
-                    if got is None:
+                    env = {"dim": dv, "crop": cv, "cent": cc, "dims": dims, "cropname": crop, "ci": ci}
+                    got = _feval(e, env)
+                    if got is None or not env.get("used"):
+                        # not evaluated, or a path on which the caller's centering is not used at all
+                        # (the NaN / None default): the sample points say nothing there
                         wit = None
                         break
                     want = (dv - cv) * cc
@@ -660,6 +663,7 @@ def _feval(e, env):
         return None
     if k == "field":
         if "centering" in fmt(e[1]) and str(e[2]) == str(env["ci"]):
+            env["used"] = True
             return env["cent"]
         return None
     if k == "cast":
